@@ -63,8 +63,16 @@ def _is_context_sensitive(default: "CallableColumnDefault"):
     except AttributeError:
         return True
 
-    parameters = inspect.signature(wrapped_callable).parameters
-    return len(parameters) > 0
+    try:
+        parameters = inspect.signature(wrapped_callable).parameters
+    except ValueError:  # builtin types like `int` have no signature
+        return False
+    # sqlalchemy passes context only if callable has required positional parameter, `list` can be called without it
+    return any(
+        param.default is inspect.Parameter.empty
+        and param.kind in (inspect.Parameter.POSITIONAL_ONLY, inspect.Parameter.POSITIONAL_OR_KEYWORD)
+        for param in parameters.values()
+    )
 
 
 def _unwrap_mapped_annotation(type_hint: TypeHint) -> TypeHint:
